@@ -9,6 +9,8 @@ CONSTANTS
   HalfMax = 2
   Callers = {"c1", "c2", "c3"}
   Outcomes = {"ok", "fail", "cancel"}
+  SplitAcquire = FALSE
+  Defects = {}
   MaxNow = 9
   MaxCount = 4
 CONSTRAINT Bound
